@@ -16,6 +16,13 @@ streams, many duplicates (two-digit counters), non-ASCII names; compared: all na
 `modified`, raise; the Lean-evaluated hypotheses (scopedB, Closed, ownership rule) against Python restatements.
 Oracle: the postcondition on the real objects (per scope list and per ownership), identity snapshot of everything else.
 
+Part B+ (NameFixPass with custom generators and backing tensors, `names.fixx`).  The same specs with a tensor
+configuration (own / shared tensors, tensors on plain values, tensors refusing a name) and a generator: default,
+constant, name.upper(), the docstring example (op_type / type based), a stateful counter, and one answering the empty
+string (outside the hypothesis: model vs implementation only).  The real generator's answers are recorded and the model
+is run on the recorded table; compared: names, dictionaries, tensor names, flags, raise, and the sequence of generator
+calls.  Oracle in every outcome (also after a raise): initializers keyed by their names, tensors follow their values.
+
 Part C (rename_values).  Exhaustive small assignments + random ones with repeated pairs, shared and refusing
 backing tensors (rollback), values owned by no graph, scalar arguments; compared with `names.rename`; oracle:
 all-or-nothing including tensor names.
@@ -42,13 +49,32 @@ THEOREMS = [
     "IrVerif.Names.C15_scoped_of_well_owned",
     "IrVerif.Names.C15_rename_values_atomic",
     "IrVerif.Names.C15_rename_values_succeeds",
+    "IrVerif.Names.C15_first_holder_keeps",
+    "IrVerif.Names.C15_namefix_call_first_holder_keeps",
+    "IrVerif.Names.C15_gen_step_fresh",
+    "IrVerif.Names.C15_gen_ikey_preserved",
+    "IrVerif.Names.C15_gen_tensor_follows",
+    "IrVerif.Names.C15_gen_refines_default",
+    "IrVerif.Names.C15_gen_nonempty_necessary",
+    "IrVerif.Names.C15_gen_total_needs_scoping",
+    "IrVerif.Names.C15_scoping_necessary",
 ]
 ASSUMPTIONS = [
     "Python set/dict membership, dict insertion order and f-string decimal printing of int are modelled by list "
     "membership, association lists and Nat.repr",
-    "only the default SimpleNameGenerator of NameFixPass is modelled (a custom NameGenerator is outside the model)",
+    "a NameGenerator is modelled as a function of (kind, object, the object's current name): every object is handed "
+    "to the generator at most once per run, so the answers of a stateful generator during one run are such a function "
+    "too; the harness records the answers of the real generator object, runs the model on the recorded table and "
+    "requires the model's sequence of generator calls to be the recorded one; generators that raise or answer a "
+    "non-str are outside the typed model",
+    "for custom generators the postcondition (non-empty, unique per scope, first holder keeps) is checked by the oracle "
+    "and the model/implementation comparison, not proved; proved for every generator: freshness of every naming step, "
+    "I_key preservation, tensor write-through, in every outcome (C15_gen_*); the default generator's theorems apply "
+    "to the general model through C15_gen_refines_default",
     "NameFixPass / rename_values theorems assume InitsOk (initializer dictionaries keyed by the current non-empty "
-    "names: kernel invariant I_key, property C01); post/keeps_unique/idempotent additionally assume the scoping rule "
+    "names: kernel invariant I_key, property C01) of the INPUT only; its preservation is proved (C15_namefix_total, "
+    "C15_gen_ikey_preserved: every generator, refusing tensors, also when the pass raises); "
+    "post/keeps_unique/first_holder/idempotent additionally assume the scoping rule "
     "scopedB, node objects occurring once, and top-level graphs sharing no values (PassWF); scopedB is implied "
     "(theorem C15_scoped_of_well_owned) by the ownership rule: every value a node uses is owned by its graph or an "
     "enclosing graph, wherever it is defined (unsorted graphs and forward captures included); excluded are values "
@@ -59,9 +85,10 @@ ASSUMPTIONS = [
     "objects and fed to the model as drop events; attach events are derived from the API call made",
     "'nothing but names changed' is structural in the model (the object tree is an input only); on the real objects "
     "it is checked by the oracle (identity snapshot of graphs, nodes, values, uses, attributes, backing tensors)",
-    "backing tensors are modelled for rename_values (shared tensors, tensors refusing a name, rollback); for "
-    "NameFixPass the tensor rename inside Value.name= is checked by the oracle only; values that have a producer "
-    "and are registered as initializers are not modelled",
+    "backing tensors are modelled for rename_values (shared tensors, tensors refusing a name, rollback) and for "
+    "NameFixPass (write-through inside Value.name=, shared tensors, a refusing tensor stops the pass in the middle: "
+    "names.fixx); 'a tensor none of whose values was renamed keeps its name' is checked by the oracle and the "
+    "comparison only; values that have a producer and are registered as initializers are not modelled",
     "TypeError paths of rename_values (non-Value / non-str arguments, length mismatch) are outside the typed model",
 ]
 
@@ -694,10 +721,20 @@ class _Built:
         self.ir, self.spec = ir, spec
         nv = len(spec["vnames"])
         self.values = [ir.Value(name=f"__tmp_{i}") for i in range(nv)]
+        # backing tensors: by default every initializer has its own tensor carrying its name; a spec may give
+        # `constOf` (tensor index per value or None: shared tensors, tensors on plain values), `tnames`, `frozen`
+        const_of = spec.get("constOf")
+        self.tensors = []
+        if const_of is not None:
+            self.tensors = [_FrozenTensor(n) if t in spec.get("frozen", ()) else ir.tensor([1.0], name=n)
+                            for t, n in enumerate(spec["tnames"])]
         for d in spec["dicts"]:
             for k, v in d:
                 # initializers carry a backing tensor whose name must follow the value's name
-                self.values[v] = ir.Value(name=k, const_value=ir.tensor([1.0], name=k))
+                if const_of is None:
+                    self.values[v] = ir.Value(name=k, const_value=ir.tensor([1.0], name=k))
+                else:
+                    self.values[v] = ir.Value(name=k, const_value=None if const_of[v] is None else self.tensors[const_of[v]])
         self.nodes = [None] * len(spec["nnames"])
         self.graphs = [None] * len(spec["dicts"])  # the Graph per gid (for a function: its underlying graph)
         tops = [self.build_graph(t) for t in spec["tops"]]
@@ -709,6 +746,13 @@ class _Built:
                 v.name = spec["vnames"][i]
         for i, n in enumerate(self.nodes):
             n.name = spec["nnames"][i]
+        if const_of is not None:  # tensors of plain values are attached after naming (the setter writes through)
+            for i, v in enumerate(self.values):
+                if spec["initOf"][i] is None and const_of[i] is not None:
+                    v.const_value = self.tensors[const_of[i]]
+
+    def tnames(self):
+        return [t.name for t in self.tensors]
 
     def build_graph(self, g):
         ir = self.ir
@@ -921,6 +965,13 @@ def _namefix_oracle(ctx, spec, before, after, struct_before, struct_after, raise
             o = before["nnames"][n]
             if _truthy(o) and orig.count(o) == 1 and nn[n] != o:
                 fails.append(("NameFixPass:unique-node-name-changed", f"{o!r} -> {nn[n]!r}"))
+        for k, n in enumerate(L):  # C15_first_holder_keeps, nodes: L is in visiting order
+            o = before["nnames"][n]
+            if _truthy(o) and n not in L[:k]:
+                if o not in orig[:k] and nn[n] != o:
+                    fails.append(("NameFixPass:first-node-holder-renamed", f"the first node named {o!r} became {nn[n]!r}"))
+                if o in orig[:k] and nn[n] == o:
+                    fails.append(("NameFixPass:later-node-holder-kept", f"a later node named {o!r} kept the name"))
     if scoped:
         for L in lists:
             names = [vn[v] for v in L]
@@ -931,8 +982,10 @@ def _namefix_oracle(ctx, spec, before, after, struct_before, struct_after, raise
                 o = before["vnames"][v]
                 if _truthy(o) and orig.count(o) == 1 and vn[v] != o:
                     fails.append(("NameFixPass:unique-value-name-changed", f"{o!r} -> {vn[v]!r} among {orig}"))
-                if _truthy(o) and o not in orig[:k] and vn[v] != o:  # L is in processing order (oracle only, no theorem)
+                if _truthy(o) and o not in orig[:k] and vn[v] != o:  # L is in visiting order (C15_first_holder_keeps)
                     fails.append(("NameFixPass:first-holder-renamed", f"the first value named {o!r} became {vn[v]!r}"))
+                if _truthy(o) and o in orig[:k] and v not in L[:k] and vn[v] == o:
+                    fails.append(("NameFixPass:later-holder-kept", f"a later value named {o!r} kept the name"))
     # ownership-based uniqueness, independent of traversal order and of the `scoped` restatement: the values owned
     # by a graph and by its enclosing graphs (wherever they are defined: forward captures included) differ pairwise
     well_owned, groups = _ownership(spec, after["dicts"])
@@ -1097,6 +1150,221 @@ def _custom_generator_case(ctx, ir, spec):
         ctx.fail(sig.replace("NameFixPass:", "NameFixPass(custom generator):"), what, case)
 
 
+# ---- part B+ : NameFixPass with custom generators and backing tensors against the model `names.fixx`
+
+GEN_KINDS = ["simple", "const", "upper", "counter", "optype", "empty"]
+
+
+class _RecGen:
+    """A NameGenerator of the given kind that records every call (kind, object, answer)."""
+
+    def __init__(self, kind, built):
+        self.kind, self.calls, self.k = kind, [], 0
+        self.vid = {id(v): i for i, v in enumerate(built.values)}
+        self.nid = {id(n): i for i, n in enumerate(built.nodes)}
+
+    def _answer(self, is_node, obj):
+        name = obj.name
+        if self.kind == "simple":
+            return name or ("node" if is_node else "v")
+        if self.kind == "const":
+            return "c"
+        if self.kind == "upper":
+            return name.upper() if name else "zz"
+        if self.kind == "counter":  # stateful: the k-th call answers g<k>
+            self.k += 1
+            return f"g{self.k}"
+        if self.kind == "optype":  # the docstring example of NameFixPass
+            return f"custom_node_{obj.op_type}" if is_node else f"custom_value_{obj.type}"
+        return ""  # "empty": violates the hypothesis `the generator returns non-empty names`
+
+    def generate_node_name(self, node):
+        a = self._answer(True, node)
+        self.calls.append([True, self.nid.get(id(node), -1), a])
+        return a
+
+    def generate_value_name(self, value):
+        a = self._answer(False, value)
+        self.calls.append([False, self.vid.get(id(value), -1), a])
+        return a
+
+
+def _x_spec(rng, spec):
+    """add a tensor configuration to a spec: own / shared tensors, tensors on plain values, refusing tensors"""
+    nv = len(spec["vnames"])
+    mode = rng.choice(["own", "own", "shared", "plain", "frozen", "frozen-shared"])
+    const_of, tnames = [None] * nv, []
+    for i in range(nv):
+        has = spec["initOf"][i] is not None or (mode in ("plain", "frozen", "frozen-shared") and spec["vnames"][i] and rng.random() < 0.3)
+        if not has:
+            continue
+        if mode in ("shared", "frozen-shared") and tnames and rng.random() < 0.4:
+            const_of[i] = rng.randrange(len(tnames))
+        else:
+            const_of[i] = len(tnames)
+            tnames.append(spec["vnames"][i])
+    frozen = [t for t in range(len(tnames)) if mode.startswith("frozen") and rng.random() < 0.35]
+    return dict(spec, constOf=const_of, tnames=tnames, frozen=frozen), mode
+
+
+def _run_one_x(ir, xspec, kind):
+    from onnx_ir.passes.common import naming
+
+    b = _Built(ir, xspec)
+    gen = _RecGen(kind, b)
+    before, struct_before, tbefore = b.state(), b.structure(), b.tnames()
+    raised, modified = None, None
+    try:
+        modified = bool(naming.NameFixPass(name_generator=gen)(b.model).modified)
+    except Exception as e:  # noqa: BLE001
+        raised = type(e).__name__
+    after, struct_after = b.state(), b.structure()
+    return b, gen, before, after, struct_before, struct_after, tbefore, b.tnames(), raised, modified
+
+
+def _x_oracle(spec, kind, before, after, tbefore, tafter, raised):
+    """independent of the model, in EVERY outcome (also when the pass raised in the middle): initializers keyed by
+    their current names, same values, same flags; an unshared backing tensor that carried its value's name still
+    does; a tensor none of whose values was renamed keeps its name"""
+    fails = []
+    vn = after["vnames"]
+    for g, d in enumerate(after["dicts"]):
+        if any(vn[v] != k or not k for k, v in d) or sorted(v for _, v in d) != sorted(v for _, v in before["dicts"][g]):
+            fails.append(("NameFixPass(x):initializer-key", f"graph {g}: initializers not keyed by their current names: {d}"))
+    if after["initOf"] != before["initOf"]:
+        fails.append(("NameFixPass(x):initializer-flag", "is_initializer()/graph of a value changed"))
+    const_of = spec["constOf"]
+    for t in range(len(tbefore)):
+        users = [i for i, c in enumerate(const_of) if c == t]
+        if len(users) == 1 and tbefore[t] == before["vnames"][users[0]] and tafter[t] != vn[users[0]]:
+            fails.append(("NameFixPass(x):const-tensor-name", f"tensor {t} carries {tafter[t]!r}, its value {vn[users[0]]!r}"))
+        if all(vn[i] == before["vnames"][i] for i in users) and tafter[t] != tbefore[t]:
+            fails.append(("NameFixPass(x):const-tensor-touched", f"tensor {t} renamed although none of its values was"))
+        if tafter[t] != tbefore[t] and not any(vn[i] == tafter[t] and vn[i] != before["vnames"][i] for i in users):
+            fails.append(("NameFixPass(x):const-tensor-stray", f"tensor {t} carries a name that is not the new name of one of its values"))
+    return fails
+
+
+def _run_namefix_x(ctx: Ctx, ir, specs) -> None:
+    rng = ctx.rng
+    todo = [(D30_SPEC, "simple", "witness"), (D30_SPEC, "const", "witness"), (XRAISE_SPEC, "const", "witness"),
+            (XRAISE_SPEC, "simple", "witness"), (D31_SPEC, "empty", "witness"), (D30_SPEC, "empty", "witness")]
+    for c in load_corpus("C15"):
+        if c.get("part") == "namefix-x":
+            todo.append((c["spec"], c["gen"], "corpus"))
+    runs = []
+    for spec, kind, origin in todo:
+        xs = spec if "constOf" in spec else _x_spec(random_for(spec), spec)[0]
+        runs.append((xs, kind, origin, "given"))
+    for i, (spec, origin) in enumerate(specs[: ctx.pick(1500, 12000)]):
+        kind = rng.choice(["simple", "simple"] + GEN_KINDS[1:])
+        xs, mode = _x_spec(rng, spec)
+        runs.append((xs, kind, origin, mode))
+    _exec_x_runs(ctx, ir, runs)
+
+
+def _exec_x_runs(ctx: Ctx, ir, runs) -> None:
+    results, reqs = [], []
+    for xs, kind, origin, mode in runs:
+        try:
+            res = _run_one_x(ir, xs, kind)
+        except Exception as e:  # the spec cannot be built as real IR
+            ctx.count(f"namefix_x_unbuildable={type(e).__name__}")
+            continue
+        b, gen, before = res[0], res[1], res[2]
+        if before["vnames"] != xs["vnames"] or before["dicts"] != xs["dicts"] or before["nnames"] != xs["nnames"] \
+                or res[6] != xs["tnames"]:
+            ctx.count("namefix_x_spec_not_realised")
+            continue
+        # the generator as the table of its recorded answers (a stateful generator is a table too)
+        tv, tn, ambiguous = {}, {}, False
+        for is_node, i, a in gen.calls:
+            tab = tn if is_node else tv
+            if i < 0 or tab.setdefault(i, a) != a:
+                ambiguous = True
+        if ambiguous:  # the same object met twice with different answers (a graph object held twice)
+            ctx.count("namefix_x_ambiguous_table")
+            continue
+        req = dict(_fix_request(xs), m="names.fixx", constOf=xs["constOf"], tnames=xs["tnames"], frozen=xs["frozen"],
+                   gen="simple" if kind == "simple" else {"v": sorted(map(list, tv.items())), "n": sorted(map(list, tn.items()))})
+        reqs.append(req)
+        results.append((xs, kind, origin, mode, res))
+        if kind == "const":  # the closed form of the constant generator must agree with its table
+            reqs.append(dict(req, gen={"const": "c"}))
+            results.append(None)
+    outs = lean_batch_parallel(reqs)
+    prev = None
+    for item, out in zip(results, outs):
+        if item is None:
+            if {k: out.get(k) for k in ("vnames", "nnames", "dicts", "raised", "tnames")} != \
+                    {k: prev.get(k) for k in ("vnames", "nnames", "dicts", "raised", "tnames")}:
+                ctx.disagree("names.fixx: constant generator as a function != as a recorded table", None, out, prev)
+            continue
+        prev = out
+        xs, kind, origin, mode, (b, gen, before, after, sb, sa, tb, ta, raised, modified) = item
+        case = {"part": "namefix-x", "spec": xs, "gen": kind}
+        froze = raised == "RuntimeError"
+        fails = _x_oracle(xs, kind, before, after, tb, ta, raised)
+        scoped = well_owned = None
+        if raised is None and kind != "empty":
+            after2 = dict(after)
+            f2, scoped, well_owned = _namefix_oracle(ctx, xs, before, after2, sb, sa, None, None, case)
+            fails += [(sig.replace("NameFixPass:", f"NameFixPass(gen={kind}):"), what) for sig, what in f2
+                      if kind == "simple" or "unique-" not in sig]
+        elif raised is not None and not froze and kind != "empty":
+            wo, _ = _ownership(xs, after["dicts"])
+            if kind == "simple" or wo:
+                if _closed(xs):
+                    fails.append((f"NameFixPass(gen={kind}):raises:{raised}", "raised without a refusing tensor on a well-owned model"))
+            else:
+                ctx.count("namefix_x_custom_gen_raise_ill_owned")
+        if sb != sa:
+            fails.append(("NameFixPass(x):structure-changed", "something other than names / initializer keys / tensor names changed"))
+        changed = sum(1 for a, c in zip(before["vnames"] + before["nnames"], after["vnames"] + after["nnames"]) if a != c)
+        shared = len([c for c in xs["constOf"] if c is not None]) > len(xs["tnames"])
+        ctx.case(case, nontrivial=changed > 0 or raised is not None,
+                 sample={"part": "namefix-x", "gen": kind, "vnames": xs["vnames"], "after": after["vnames"], "raised": raised},
+                 part="namefix-x", gen=kind, x_tensors=mode, x_shared=shared, x_raised=raised or "no",
+                 x_gen_calls=min(len(gen.calls), 6), x_initsOk=out.get("initsOk"), x_tensor_renamed=tb != ta,
+                 x_model_raised=bool(out.get("raised")), x_frozen=bool(xs["frozen"]),
+                 x_model_tensor_renamed=out.get("tnames") != xs["tnames"])
+        for sig, what in fails:
+            ctx.fail(sig, what, case)
+        if not out.get("initsOk"):
+            ctx.disagree("names.fixx: a generated world is not keyed by its names (InitsOk false)", case, out, None)
+        if not out.get("initsOkAfter"):
+            ctx.disagree("C15_gen_ikey_preserved contradicted by the driver", case, out, None)
+        impl = {"vnames": after["vnames"], "nnames": after["nnames"], "dicts": after["dicts"], "initOf": after["initOf"],
+                "modified": modified, "raised": raised is not None, "tnames": ta,
+                "glog": [[bool(k), i] for k, i, _ in gen.calls]}
+        model = {k: out.get(k) for k in impl}
+        if raised is not None:
+            model["modified"] = impl["modified"] = None
+        if model != impl and not fails:
+            ctx.disagree("names.fixx model != NameFixPass(name_generator=..., backing tensors)", case, model, impl)
+        if kind == "simple" and not xs["frozen"]:
+            ctx.count("x_refines_checked")
+        if kind == "simple" and not xs["frozen"] and not out.get("plainEq"):
+            ctx.disagree("C15_gen_refines_default contradicted by the driver (fixModelX simpleGen != fixModel)", case, out, None)
+
+
+def random_for(spec):
+    import random
+
+    return random.Random(repr(sorted(spec.items(), key=lambda kv: kv[0])))
+
+
+# two sibling subgraphs S1, S2; S2's initializers u "k1", v "k2"; S1 uses u next to its own "k1" (ill-scoped), S2 has an
+# input "k2": with a constant generator u becomes "c" in S1's scope, later v becomes "c" in S2's scope -> the setter's
+# guard raises; the default generator's counters are global, so it never raises (C15_namefix_total)
+XRAISE_SPEC = {"vnames": ["k1", "k1", "k2", "k2", "o"], "nnames": ["A", "I1", "I2"], "initOf": [None, 2, 2, None, None],
+               "dicts": [[], [], [["k1", 1], ["k2", 2]]],
+               "tops": [{"g": 0, "isGraph": True, "ins": [], "outs": [], "nodes": [
+                   {"n": 0, "ins": [], "outs": [4], "attrs": [
+                       ["g", {"g": 1, "isGraph": True, "ins": [], "outs": [], "nodes": [{"n": 1, "ins": [1], "outs": [0], "attrs": []}]}],
+                       ["g", {"g": 2, "isGraph": True, "ins": [3], "outs": [], "nodes": [{"n": 2, "ins": [], "outs": [], "attrs": []}]}]]}]}]}
+
+
 def _run_namefix(ctx: Ctx, ir) -> None:
     specs = [(D30_SPEC, "witness"), (D31_SPEC, "witness"), (D221_SPEC, "witness"), (E3_SPEC, "witness")]
     for c in load_corpus("C15"):
@@ -1122,6 +1390,7 @@ def _run_namefix(ctx: Ctx, ir) -> None:
         _check_fix_case(ctx, ir, spec, out, origin)
     for spec, origin in specs[: ctx.pick(300, 3000)]:
         _custom_generator_case(ctx, ir, spec)
+    _run_namefix_x(ctx, ir, specs[4:])
 
 
 # --------------------------------------------------------------------------- part C (rename_values)
@@ -1305,6 +1574,9 @@ FLOORS = {
     "authority_op=node-graph": 150, "authority_op=clone": 20, "via_function=True": 80, "counter_ge_10=True": 100,
     "part=namefix": 1800, "scoped=False": 150, "forward_ref=True": 250, "nested_inits=True": 600,
     "origin=many-duplicates": 20, "origin=non-ascii": 20, "part=namefix-custom-generator": 150,
+    "part=namefix-x": 1200, "gen=const": 120, "gen=counter": 120, "gen=upper": 120, "gen=optype": 120, "gen=empty": 120,
+    "x_model_raised=True": 100, "x_frozen=True": 250, "x_shared=True": 200, "x_model_tensor_renamed=True": 400,
+    "x_refines_checked": 200,
     "part=rename": 15000, "rollback=True": 30, "shared_tensor=True": 300, "scalar_args=True": 100, "free_value=True": 500,
     "permutes=True": 2000, "raised=True": 3000, "raised=False": 3000,
 }
@@ -1314,11 +1586,14 @@ def _check_floors(ctx):
     from harness.common import Infra
 
     drops = {k: v for k, v in ctx.dist.items() if k.startswith(("namefix_unbuildable", "namefix_spec_not_realised",
-                                                                 "authority_clone_rejected", "authority_implicit_attach"))}
+                                                                 "authority_clone_rejected", "authority_implicit_attach",
+                                                                 "namefix_x_unbuildable", "namefix_x_spec_not_realised",
+                                                                 "namefix_x_ambiguous_table"))}
     ctx.extra["dropped_cases"] = drops
     ctx.extra["coverage_floors"] = FLOORS
-    if ctx.dist.get("namefix_spec_not_realised", 0):
-        raise Infra(f"{ctx.dist['namefix_spec_not_realised']} generated models could not be realised as specified")
+    if ctx.dist.get("namefix_spec_not_realised", 0) or ctx.dist.get("namefix_x_spec_not_realised", 0):
+        raise Infra(f"{ctx.dist.get('namefix_spec_not_realised', 0) + ctx.dist.get('namefix_x_spec_not_realised', 0)} "
+                    "generated models could not be realised as specified")
     thin = {k: ctx.dist.get(k, 0) for k, f in FLOORS.items() if ctx.dist.get(k, 0) < f}
     if thin:
         raise Infra(f"coverage floor not reached: {thin} (floors {({k: FLOORS[k] for k in thin})})")
@@ -1344,6 +1619,8 @@ def replay(ctx: Ctx, obj: dict) -> None:
     if isinstance(case, dict) and case.get("part") == "namefix":
         out = lean_batch_parallel([_fix_request(case["spec"])])[0]
         _check_fix_case(ctx, ir, case["spec"], out, "replay")
+    elif isinstance(case, dict) and case.get("part") == "namefix-x":
+        _exec_x_runs(ctx, ir, [(case["spec"], case["gen"], "replay", "given")])
     elif isinstance(case, dict) and case.get("part") == "authority":
         _replay_authority(ctx, ir, case["script"])
     elif isinstance(case, dict) and case.get("part") == "rename":
